@@ -1,6 +1,7 @@
 package main
 
 import (
+	"sync"
 	"bytes"
 	"encoding/json"
 	"fmt"
@@ -419,7 +420,38 @@ func dumpCase(r *rand.Rand) Case {
 		src = pp.Interface()
 		tags = []string{"dump:**T"}
 	}
-	impl := guard(func() string { return X(valid.GetDumpStructStr(src)) })
+	var impl string
+	if chance(r, 0.06) {
+		// the same value dumped by several goroutines at once (often the first dump ever of its type): every one of
+		// them must produce the whole document; the shortest output is the one that is judged
+		const n = 6
+		outs := make([]string, n)
+		var wg sync.WaitGroup
+		start := make(chan struct{})
+		for i := 0; i < n; i++ {
+			wg.Add(1)
+			go func(i int) {
+				defer wg.Done()
+				<-start
+				outs[i] = guard(func() string { return X(valid.GetDumpStructStr(src)) })
+			}(i)
+		}
+		close(start)
+		wg.Wait()
+		impl = outs[0]
+		for _, o := range outs {
+			if len(o) < len(impl) || strings.HasPrefix(o, "(") {
+				impl = o
+			}
+		}
+		tags = append(tags, "dump:concurrent")
+	} else {
+		impl = guard(func() string {
+			raw := valid.GetDumpStructStr(src)
+			retain("dump", raw) // the text handed out must not change when later dumps reuse internal buffers
+			return X(raw)
+		})
+	}
 	oracle := "na"
 	if g.scope && strings.HasPrefix(impl, "x") {
 		out := unhex(impl[1:])
@@ -499,6 +531,8 @@ func init() {
 			"nil/empty/multi-entry maps with string/int/uint keys, strings without escapes, ints, uints up to 2^64-1, float32/64 incl. 1e21 and subnormals, bools); 10% with out-of-scope kinds. " +
 			"Compared with the model byte for byte (any map order) and, independently, decoded with encoding/json against the standard encoding. non-trivial: more than an empty object; distinct by request",
 		Size: map[string]int{"quick": 30000, "thorough": 600000},
-		Gen:  func(r *rand.Rand, tier string) Case { return dumpCase(r) },
+		Setup: func(string) { retainOn = true },
+		Gen:   func(r *rand.Rand, tier string) Case { return dumpCase(r) },
+		Final: retainedCases,
 	})
 }
